@@ -22,68 +22,69 @@ def raw_parts(a):
     return [c for c in a.calls if c.fn in ("core::slice::from_raw_parts", "core::slice::from_raw_parts_mut")]
 
 
+def slice_elem(t):
+    pt = pointee(t) if t is not None else None
+    return pt["t"] if pt is not None and pt.get("k") == "slice" else None
+
+
+def piece_of(a, v, elem):
+    """(byte offset, byte extent, element count) of a slice pointer into the source parameter, or None."""
+    if v[0] != "P" or v[1] != ("arg", 1) or v[3] is None or elem is None:
+        return None
+    return v[2], v[3] * a.tenv.size(elem), v[3]
+
+
 def check_chunks(ctx, cfg, key):
+    """chunks_from_slice(_mut), judged per return path (helpers expanded, tree-shaped): whatever builds the two slices, under N != 0 they are
+    views into the source that tile it exactly - arrays first, from its address - with fewer than N elements left over; under N == 0 both are
+    empty and the source is empty; panics only under N == 0 with a non-empty source."""
     rule = "C10.C"
     b = ctx.body(cfg, key, rule)
     if b is None:
         return 0
-    a = ctx.analysis(cfg, key)
+    a = ctx.analysis_inl(cfg, key, split=True, tag="c10")
     te = a.tenv
     nlen = te.length({"k": "param", "n": b["generics"][1]["n"]})
     L = Poly.atom(("len", ("arg", 1)))
     total = a.base_extent(("arg", 1))
-    rp = raw_parts(a)
-    if len(rp) != 2:
-        ctx.ob(rule, key, REFUTED if rp else MISSING, "expected two from_raw_parts pieces, found %d" % len(rp), at=b["at"], cfg=cfg)
-        return 0
-    pieces = []
-    facts = frozenset()
-    for c in rp:
-        p = c.args[0]
-        cnt = a.as_poly(c.args[1])
-        if p[0] != "P" or p[1] != ("arg", 1) or cnt is None:
-            ctx.ob(rule, key, REFUTED, "piece not derived from the source slice: %s" % vstr(p), at=b["at"], cfg=cfg)
-            return 0
-        pieces.append((p[2], cnt * te.size(c.targs[0]), c))
-        facts = facts | c.facts
-    st, det = tiling(a, [(o, e) for o, e, _ in pieces], total, facts)
-    ctx.ob(rule, key + "#tiling", st, det + " under " + fstr(rp[1].facts), at=b["at"], cfg=cfg)
-    ctx.sample({"rule": rule, "fn": key, "cfg": cfg, "detail": det})
-    # each piece reached only under N != 0
-    for i, c in enumerate(rp):
-        ctx.ob(rule, "%s#nonzero#%d" % (key, i), a.prove(c.facts, "Ne", nlen, Poly.const(0)), "piece constructed under %s; required N != 0" % fstr(c.facts), at=b["at"], cfg=cfg)
-    # element kinds: one piece of arrays, one of elements; the remainder is < N
-    arr = [p for p in pieces if tstr(p[2].targs[0]).startswith("GenericArray<")]
-    rem = [p for p in pieces if not tstr(p[2].targs[0]).startswith("GenericArray<")]
-    ok = len(arr) == 1 and len(rem) == 1
-    if ok:
-        rem_cnt = a.as_poly(rem[0][2].args[1])
-        ok_rem = prove((">=", nlen - rem_cnt - 1), a.poly_facts(facts))
-        ok_first = prove(("==", arr[0][0]), a.poly_facts(facts))
-        ctx.ob(rule, key + "#remainder", ok_rem and ok_first, "remainder count %r < N provable: %s; the array piece starts at the slice's address: %s" % (rem_cnt, ok_rem, ok_first), at=b["at"], cfg=cfg)
-    else:
-        ctx.ob(rule, key + "#remainder", REFUTED, "expected one piece of GenericArray<T, N> and one of T", at=b["at"], cfg=cfg)
-    # N == 0 branch
+    rt = a.local_ty(0)
+    elems = [slice_elem(t) for t in rt["ts"]] if rt.get("k") == "tuple" and len(rt["ts"]) == 2 else [None, None]
+    kinds_ok = elems[0] is not None and elems[1] is not None and tstr(elems[0]).startswith("GenericArray<") and not tstr(elems[1]).startswith("GenericArray<")
+    bad, n_nonzero, n_zero, dets = [], 0, 0, []
+    for r in a.returns:
+        v = r["val"]
+        fs = r["facts"]
+        if not (v[0] == "A" and v[1] == "tuple" and len(v[2]) == 2):
+            bad.append("a return value is not a pair of slices: %s" % vstr(v))
+            continue
+        if a.prove(fs, "Eq", nlen, Poly.const(0)):
+            n_zero += 1
+            empties = all(x[0] == "P" and x[3] is not None and a.prove(fs, "Eq", x[3], Poly.const(0)) for x in v[2])
+            lz = a.prove(fs, "Eq", L, Poly.const(0))
+            if not (empties and lz):
+                bad.append("under N == 0 the result must be two empty slices and the source empty: %s / %s" % (empties, lz))
+            continue
+        if not a.prove(fs, "Ne", nlen, Poly.const(0)):
+            bad.append("a return path is taken without N == 0 or N != 0 being decided: %s" % fstr(fs))
+            continue
+        n_nonzero += 1
+        ps = [piece_of(a, x, e) for x, e in zip(v[2], elems)]
+        if None in ps:
+            bad.append("a piece is not a view into the source slice: %s" % ", ".join(vstr(x) for x in v[2]))
+            continue
+        st, det = tiling(a, [(o, e) for o, e, _ in ps], total, fs)
+        dets.append(det)
+        first = prove(("==", ps[0][0]), a.poly_facts(fs))
+        rem = prove((">=", nlen - ps[1][2] - 1), a.poly_facts(fs))
+        if st != PROVED or not first or not rem:
+            bad.append("%s; the array piece starts at the slice's address: %s; remainder count %r < N: %s" % (det, first, ps[1][2], rem))
     panics = [c for c in a.calls if c.fn.startswith("core::panicking::")]
     okp = bool(panics) and all(a.prove(c.facts, "Eq", nlen, Poly.const(0)) and a.prove(c.facts, "Ne", L, Poly.const(0)) for c in panics)
-    ctx.ob(rule, key + "#zero-panic", okp, "panic exits: " + "; ".join(fstr(c.facts) for c in panics) + " (required: N == 0 and len != 0)", at=b["at"], cfg=cfg)
-    rets = [s for s in a.assigns if s["cell"] == (("local", 0), ()) and s["val"][0] == "A" and s["val"][1] == "tuple"]
-    n_zero = 0
-    good = True
-    for s in rets:
-        if a.prove(s["facts"], "Eq", nlen, Poly.const(0)):
-            n_zero += 1
-            vals = s["val"][2]
-            empties = all(v[0] == "P" and v[3] is not None and v[3] == Poly.const(0) for v in vals)
-            lz = a.prove(s["facts"], "Eq", L, Poly.const(0))
-            good = good and empties and lz
-        elif a.prove(s["facts"], "Ne", nlen, Poly.const(0)):
-            vals = s["val"][2]
-            good = good and len(vals) == 2 and vals[0] == arr[0][2].ret and vals[1] == rem[0][2].ret if ok else False
-        else:
-            good = False
-    ctx.ob(rule, key + "#returns", good and n_zero == 1 and len(rets) == 2,
-           "return sites: %d (one under N == 0 & len == 0 giving two empty slices, one under N != 0 giving (arrays, remainder) in that order)" % len(rets), at=b["at"], cfg=cfg)
+    ok = kinds_ok and not bad and n_nonzero >= 1 and n_zero >= 1
+    ctx.ob(rule, key + "#tiling", ok, ("; ".join(sorted(set(bad))) if bad else "result types (&[GenericArray<T,N>], &[T]): %s; %d return path(s) under N != 0, each tiling the source exactly (%s), %d under N == 0 giving two empty slices of an empty source" % (
+        kinds_ok, n_nonzero, "; ".join(sorted(set(dets)))[:300], n_zero)), at=b["at"], cfg=cfg)
+    ctx.ob(rule, key + "#zero-panic", okp, "panic exits: " + "; ".join(sorted({fstr(c.facts) for c in panics})) + " (required: N == 0 and len != 0)", at=b["at"], cfg=cfg)
+    ctx.sample({"rule": rule, "fn": key, "cfg": cfg, "detail": dets[:2]})
     return 1
 
 
@@ -92,45 +93,43 @@ def check_flatten(ctx, cfg, key):
     b = ctx.body(cfg, key, rule)
     if b is None:
         return 0
-    a = ctx.analysis(cfg, key)
-    rp = raw_parts(a)
-    if len(rp) != 1:
-        ctx.ob(rule, key, REFUTED if rp else MISSING, "expected one from_raw_parts, found %d" % len(rp), at=b["at"], cfg=cfg)
-        return 0
-    c = rp[0]
-    p = c.args[0]
-    cnt = a.as_poly(c.args[1])
+    a = ctx.analysis_inl(cfg, key, split=True, tag="c10")
     total = a.base_extent(("arg", 1))
-    ok = p[0] == "P" and p[1] == ("arg", 1) and cnt is not None
-    st, det = (REFUTED, "not derived from the source") if not ok else tiling(a, [(p[2], cnt * a.tenv.size(c.targs[0]))], total, c.facts)
-    okret = all(r["val"] == c.ret for r in a.returns)
-    ctx.ob(rule, key, st if okret else REFUTED, det + "; result returned unchanged: %s" % okret, at=b["at"], cfg=cfg)
+    elem = slice_elem(a.local_ty(0))
+    bad = []
+    for r in a.returns:
+        p = piece_of(a, r["val"], elem)
+        if p is None:
+            bad.append("result is not a view into the source: %s" % vstr(r["val"]))
+            continue
+        st, det = tiling(a, [(p[0], p[1])], total, r["facts"])
+        if st != PROVED:
+            bad.append(det)
+    ctx.ob(rule, key, bool(a.returns) and not bad, "; ".join(bad) if bad else "the flat slice starts at the source's address and covers exactly its %r bytes" % (total,), at=b["at"], cfg=cfg)
     return 1
 
 
 def check_transmute(ctx, cfg, key):
+    """from_chunks / into_chunks (_mut): &[[T; U]] <-> &[GenericArray<T, N>] - same address, same element count, equal element sizes, same mutability."""
     rule = "C10.X"
     b = ctx.body(cfg, key, rule)
     if b is None:
         return 0
-    a = ctx.analysis(cfg, key)
-    tr = [c for c in a.casts if c["ck"] == "Transmute"]
-    if len(tr) != 1:
-        ctx.ob(rule, key, REFUTED if tr else UNKNOWN, "expected one slice-reference transmute, found %d" % len(tr), at=b["at"], cfg=cfg)
-        return 0
-    c = tr[0]
-    pf, pt = pointee(c["from"]), pointee(c["to"])
-    ok = pf is not None and pt is not None and pf.get("k") == "slice" and pt.get("k") == "slice"
-    det = "transmute %s -> %s" % (tstr(c["from"]), tstr(c["to"]))
+    a = ctx.analysis_inl(cfg, key, split=True, tag="c10")
+    ef, et = slice_elem(a.local_ty(1)), slice_elem(a.local_ty(0))
+    ok = ef is not None and et is not None
+    det = "%s -> %s" % (tstr(a.local_ty(1)), tstr(a.local_ty(0)))
     if ok:
-        sf, st_ = a.tenv.size(pf["t"]), a.tenv.size(pt["t"])
-        ok = prove(("==", sf - st_), a.poly_facts(c["facts"]))
-        det += ": element sizes %r vs %r under the where-clauses" % (sf, st_)
-        v = c["val"]
-        ok = ok and v[0] == "P" and v[1] == ("arg", 1) and not v[2].t and v[3] == Poly.atom(("len", ("arg", 1)))
-        ok = ok and all(r["val"][0] == "P" and r["val"][1] == ("arg", 1) and not r["val"][2].t and r["val"][3] == v[3] for r in a.returns)
-        ok = ok and c["from"]["mut"] == c["to"]["mut"]
-    ctx.ob(rule, key, ok, det + "; same address and element count returned", at=b["at"], cfg=cfg)
+        sf, st_ = a.tenv.size(ef), a.tenv.size(et)
+        ok = prove(("==", sf - st_), a.poly_facts(frozenset()))
+        det += ": element sizes %r vs %r under the where-clauses: %s" % (sf, st_, ok)
+        ln = Poly.atom(("len", ("arg", 1)))
+        same = bool(a.returns) and all(r["val"][0] == "P" and r["val"][1] == ("arg", 1) and not r["val"][2].t and r["val"][3] is not None and a.prove(r["facts"], "Eq", r["val"][3], ln) for r in a.returns)
+        mut = a.local_ty(1).get("mut") == a.local_ty(0).get("mut")
+        eff = [c.fn for c in a.calls if not a.is_pure(c) and not getattr(c, "no_effects", False) and not c.fn.startswith("core::panicking::")]
+        ok = ok and same and mut and not eff
+        det += "; same address and element count returned: %s; same mutability: %s; no effectful call: %s" % (same, mut, not eff)
+    ctx.ob(rule, key, ok, det, at=b["at"], cfg=cfg)
     return 1
 
 
